@@ -662,3 +662,114 @@ def br1(facts, rep, rule='BR-1'):
         rep.bad(rule, key, bad[0][0].loc(bad[0][1]), 'range 0..%d over byte values misses %s' % (bad[0][2], 'byte 0xFF' if bad[0][2] == 255 else 'bytes'))
     else:
         rep.ok(rule, key, '', '%d constant byte range(s), none short' % n)
+
+
+PO9_AUDIT = {
+    'data_structures::bwt::bwt|explicit-panic|assert_failed(AssertKind::Eq{},slice::len(arg1))<usize>':
+        'documented precondition: assert_eq!(text.len(), pos.len())',
+    'data_structures::bwt::bwt|bounds|idx=x0,len=PtrMetadata(arg2)':
+        'pos is a permutation of 0..n (suffix array of the same text, asserted equal length): pos[r] - 1 < n when pos[r] > 0, n - 1 < n, r < n',
+    'data_structures::bwt::bwt|bounds|idx=Sub(x0,1).0,len=PtrMetadata(arg1)':
+        'pos is a permutation of 0..n (suffix array of the same text, asserted equal length): pos[r] - 1 < n when pos[r] > 0, n - 1 < n, r < n',
+    'data_structures::bwt::bwt|overflow-sub|slice::len(arg1),1':
+        'texts are non-empty (they end with a sentinel)',
+    'data_structures::bwt::bwt|bounds|idx=Sub(slice::len(arg1),1).0,len=PtrMetadata(arg1)':
+        'pos is a permutation of 0..n (suffix array of the same text, asserted equal length): pos[r] - 1 < n when pos[r] > 0, n - 1 < n, r < n',
+    'data_structures::bwt::bwt|index|index_mut(x0,x1)<std::vec::Vec<u8>>':
+        'pos is a permutation of 0..n (suffix array of the same text, asserted equal length): pos[r] - 1 < n when pos[r] > 0, n - 1 < n, r < n',
+    'data_structures::bwt::invert_bwt|index|index(bwt::bwtfind(arg1,Alphabet::new(arg1)),0)<std::vec::Vec<usize>>':
+        'bwtfind has one entry per BWT row and holds row numbers < n; the BWT of a sentinel-terminated text is non-empty',
+    'data_structures::bwt::invert_bwt|index|index(bwt::bwtfind(arg1,Alphabet::new(arg1)),x0)<std::vec::Vec<usize>>':
+        'bwtfind has one entry per BWT row and holds row numbers < n; the BWT of a sentinel-terminated text is non-empty',
+    'data_structures::bwt::invert_bwt|bounds|idx=x0,len=PtrMetadata(arg1)':
+        'bwtfind has one entry per BWT row and holds row numbers < n; the BWT of a sentinel-terminated text is non-empty',
+    'data_structures::bwt::Occ::new|unwrap|expect(Alphabet::max_symbol(arg3),lit)<u8>':
+        'documented precondition: non-empty alphabet',
+    'data_structures::bwt::Occ::new|index|index_mut(x0,x1)<std::vec::Vec<std::vec::Vec<usize>>>':
+        'occ has max_symbol + 1 rows and curr_occ as many entries; BWT symbols are in the alphabet; counts are bounded by the text length',
+    'data_structures::bwt::Occ::new|divzero|slice::len(arg1)':
+        'sampling rate k >= 1 (documented; k = 0 is meaningless)',
+    'data_structures::bwt::Occ::new|index|index_mut(x0,x1)<std::vec::Vec<usize>>':
+        'occ has max_symbol + 1 rows and curr_occ as many entries; BWT symbols are in the alphabet; counts are bounded by the text length',
+    'data_structures::bwt::Occ::new|overflow-add|1,IndexMut<I>>::index_mut(x0,x1)':
+        'occ has max_symbol + 1 rows and curr_occ as many entries; BWT symbols are in the alphabet; counts are bounded by the text length',
+    'data_structures::bwt::Occ::new|remzero|x0':
+        'sampling rate k >= 1 (documented; k = 0 is meaningless)',
+    'data_structures::bwt::Occ::new|index|index(x0,x1)<std::vec::Vec<usize>>':
+        'occ has max_symbol + 1 rows and curr_occ as many entries; BWT symbols are in the alphabet; counts are bounded by the text length',
+    'data_structures::bwt::Occ::get|divzero|arg3':
+        'k >= 1 as established by Occ::new',
+    'data_structures::bwt::Occ::get|index|index(arg1.occ,arg4)<std::vec::Vec<std::vec::Vec<usize>>>':
+        'a is a symbol of the alphabet the table was built for (row exists); checkpoint r / k exists because one is pushed every k rows starting at row 0',
+    'data_structures::bwt::Occ::get|index|index(Index<I>>::index(arg1.occ,arg4),Div(arg3,arg1.k))<std::vec::Vec<usize>>':
+        'a is a symbol of the alphabet the table was built for (row exists); checkpoint r / k exists because one is pushed every k rows starting at row 0',
+    'data_structures::bwt::Occ::get|overflow-add|1,Div(arg3,arg1.k)':
+        'row numbers and checkpoint positions are bounded by the BWT length (far below usize::MAX); (q + 1) * k > r by definition of q = r / k',
+    'data_structures::bwt::Occ::get|overflow-mul|Add(1,Div(arg3,arg1.k)).0,arg1.k':
+        'row numbers and checkpoint positions are bounded by the BWT length (far below usize::MAX); (q + 1) * k > r by definition of q = r / k',
+    'data_structures::bwt::Occ::get|overflow-sub|Mul(Add(1,Div(arg3,arg1.k)).0,arg1.k).0,arg3':
+        'row numbers and checkpoint positions are bounded by the BWT length (far below usize::MAX); (q + 1) * k > r by definition of q = r / k',
+    'data_structures::bwt::Occ::get|overflow-add|1,arg3':
+        'row numbers and checkpoint positions are bounded by the BWT length (far below usize::MAX); (q + 1) * k > r by definition of q = r / k',
+    'data_structures::bwt::Occ::get|index|index(arg2,RangeInclusive::new(Add(1,arg3).0,Mul(Add(1,Div(arg3,arg1.k)).0,arg1.k).0))<[u8]>':
+        'r < bwt.len() (documented: r is a BWT row) and the checkpoint rows q*k, (q+1)*k bracket r; the high range is only used when checkpoint q + 1 exists (slice::get), i.e. (q+1)*k < bwt.len()',
+    'data_structures::bwt::Occ::get|overflow-sub|val(slice::get(Deref>::deref(Index<I>>::index(arg1.occ,arg4)),Add(1,Div(arg3,arg1.k)).0)),bytecount::count(index for [T]>::index(arg2,RangeInclusive::new(Add(1,arg3).0,Mul(Add(1,Div(arg3,arg1.k)).0,arg1.k).0)),arg4)':
+        'the number of occurrences between r and the next checkpoint cannot exceed the checkpoint value',
+    'data_structures::bwt::Occ::get|overflow-mul|Div(arg3,arg1.k),arg1.k':
+        'row numbers and checkpoint positions are bounded by the BWT length (far below usize::MAX); (q + 1) * k > r by definition of q = r / k',
+    'data_structures::bwt::Occ::get|overflow-add|1,Mul(Div(arg3,arg1.k),arg1.k).0':
+        'row numbers and checkpoint positions are bounded by the BWT length (far below usize::MAX); (q + 1) * k > r by definition of q = r / k',
+    'data_structures::bwt::Occ::get|index|index(arg2,RangeInclusive::new(Add(1,Mul(Div(arg3,arg1.k),arg1.k).0).0,arg3))<[u8]>':
+        'r < bwt.len() (documented: r is a BWT row) and the checkpoint rows q*k, (q+1)*k bracket r; the high range is only used when checkpoint q + 1 exists (slice::get), i.e. (q+1)*k < bwt.len()',
+    'data_structures::bwt::Occ::get|overflow-add|Index<I>>::index(Index<I>>::index(arg1.occ,arg4),Div(arg3,arg1.k)),bytecount::count(index for [T]>::index(arg2,RangeInclusive::new(Add(1,Mul(Div(arg3,arg1.k),arg1.k).0).0,arg3)),arg4)':
+        'row numbers and checkpoint positions are bounded by the BWT length (far below usize::MAX); (q + 1) * k > r by definition of q = r / k',
+    'data_structures::bwt::less|unwrap|expect(Alphabet::max_symbol(arg2),lit)<u8>':
+        'documented precondition: non-empty alphabet',
+    'data_structures::bwt::less|index|index_mut(x0,x1)<std::vec::Vec<usize>>':
+        'the table has max_symbol + 2 entries and every BWT symbol is <= max_symbol; counts and their prefix sums are bounded by the text length',
+    'data_structures::bwt::less|index|index_mut(x0,RangeFull::RangeFull{})<std::vec::Vec<usize>>':
+        'the table has max_symbol + 2 entries and every BWT symbol is <= max_symbol; counts and their prefix sums are bounded by the text length',
+    'data_structures::bwt::less|overflow-add|1,IndexMut<I>>::index_mut(x0,x1)':
+        'the table has max_symbol + 2 entries and every BWT symbol is <= max_symbol; counts and their prefix sums are bounded by the text length',
+    'data_structures::bwt::less|overflow-add|x0,x1':
+        'the table has max_symbol + 2 entries and every BWT symbol is <= max_symbol; counts and their prefix sums are bounded by the text length',
+    'data_structures::bwt::bwtfind|index|index(x0,x1)<std::vec::Vec<usize>>':
+        'less has max_symbol + 2 entries and every BWT symbol is in the alphabet; less[c] counts smaller symbols, so less[c] + (occurrences so far) < n; counts are bounded by n',
+    'data_structures::bwt::bwtfind|index|index_mut(x0,Index<I>>::index(x1,x2))<std::vec::Vec<usize>>':
+        'less has max_symbol + 2 entries and every BWT symbol is in the alphabet; less[c] counts smaller symbols, so less[c] + (occurrences so far) < n; counts are bounded by n',
+    'data_structures::bwt::bwtfind|index|index_mut(x0,x1)<std::vec::Vec<usize>>':
+        'less has max_symbol + 2 entries and every BWT symbol is in the alphabet; less[c] counts smaller symbols, so less[c] + (occurrences so far) < n; counts are bounded by n',
+    'data_structures::bwt::bwtfind|overflow-add|1,IndexMut<I>>::index_mut(x0,x1)':
+        'less has max_symbol + 2 entries and every BWT symbol is in the alphabet; less[c] counts smaller symbols, so less[c] + (occurrences so far) < n; counts are bounded by n',
+}
+
+
+def po9(facts, rep, rule='PO-9'):
+    """panic / wrap obligations of the BWT module"""
+    from . import eng_po
+    from .po_known import KNOWN
+    rep.rule(rule, 'panic obligations of bwt.rs (bwt, less, bwtfind, invert_bwt, Occ::new, Occ::get): every MIR Assert and may-panic '
+                   'call is discharged by interval analysis or audited against the documented preconditions (sentinel-terminated text, '
+                   'symbols in the alphabet, k >= 1); new arithmetic - e.g. a table size computed in u8 - is reported')
+    bodies = [b for b in facts.body_list if b.path.startswith(('data_structures::bwt::', '<data_structures::bwt::')) and '::tests::' not in b.path and 'serde' not in b.path and
+              '_::' not in b.path]
+    rep.floor(rule, 'bodies', len(bodies), 6)
+    total = 0
+    for b, nb, ia, obs in eng_po.scan(facts, bodies, KNOWN):
+        rep.analysed_body(b)
+        seen = {}
+        for o in obs:
+            total += 1
+            key = '%s|%s|%s' % (b.path, o['kind'], o['ops'])
+            seen[key] = seen.get(key, 0) + 1
+            k2 = key + ('#%d' % seen[key] if seen[key] > 1 else '')
+            if o['discharged']:
+                rep.ok(rule, k2, o['where'], 'interval analysis')
+            elif key in PO9_AUDIT:
+                rep.audited(rule, k2, o['where'], PO9_AUDIT[key])
+            elif eng_po.orphan_match(key, PO9_AUDIT, set(facts.bodies)):
+                k0 = eng_po.orphan_match(key, PO9_AUDIT, set(facts.bodies))
+                rep.audited(rule, k2, o['where'], 'arithmetic of the removed function %s, now written in its caller: %s' % (k0.split('|')[0], PO9_AUDIT[k0]))
+            else:
+                rep.bad(rule, key, o['where'], 'undischarged %s obligation: %s' % (o['kind'], o['detail']))
+    rep.floor(rule, 'obligations', total, 30)
